@@ -258,6 +258,24 @@ func requiredCase(c *C, r *Root, m protoreflect.Message, dyn bool) {
 			c.Check(chk2 == want, fmt.Sprintf("CheckInitialized after Unmarshal (lazy=%v) says %v, want %v", lazy, chk2, want), in, sig)
 		}
 	}
+	// Merge:true into an existing (possibly partial) target: the verdict is about the resulting tree,
+	// not only about the bytes parsed.
+	if c.Rand.Intn(2) == 0 {
+		var src []byte
+		switch c.Rand.Intn(3) {
+		case 0: // nothing parsed at all
+		case 1:
+			src = b
+		default:
+			src, _ = partial.Marshal(newFilled(c, r, dyn, Opts{FieldProb: 2}).Interface())
+		}
+		m3 := proto.Clone(m.Interface())
+		uerr := proto.UnmarshalOptions{Merge: true, NoLazyDecoding: c.Rand.Intn(2) == 0}.Unmarshal(src, m3)
+		after := refInit(m3.ProtoReflect())
+		in2 := map[string]any{"type": r.Name, "family": family(dyn), "msg": snap, "bytes": vh.Hex(b), "merge_src": vh.Hex(src)}
+		c.Check((uerr == nil) == after, fmt.Sprintf("Unmarshal{Merge:true} into an existing target: err=%v, resulting tree initialized=%v", uerr, after), in2, "")
+		c.Hist(fmt.Sprintf("merge-target-initialized:%v/result:%v", want, after))
+	}
 	if c.HasModel() {
 		w := "missing"
 		if want {
